@@ -113,10 +113,7 @@ func (c *fragCtx) expr(e ast.Expr) string {
 			}
 		}
 		if mt, isMap := c.typeOf(x.X).Underlying().(*types.Map); isMap {
-			// m[k] as a value: the entry, or the zero value when there is none
-			if _, isId := x.X.(*ast.Ident); !isId {
-				return c.fail("map expression")
-			}
+			// m[k] as a value: the entry, or the zero value when there is none (m: any expression of map type)
 			return "(mapGet " + c.expr(x.X) + " " + c.expr(x.Index) + " " + c.zero(mt.Elem()) + ")"
 		}
 		if _, isSlice := c.typeOf(x.X).Underlying().(*types.Slice); !isSlice {
